@@ -154,6 +154,21 @@ def main(argv):
                                   % (ob['id'], json.dumps(rp.get('inputs'))))
                     continue
                 violations.append((ob['id'], path, rp['status'] == 'confirmed'))
+            elif ob['result'] == 'candidate':
+                # undecided by the solvers; a bounded search produced a candidate counter-model: it counts only if the
+                # real code reproduces it
+                rp = C.replay_counterexample(u, ob) if isinstance(u, C.Contract) else {'status': 'no-input'}
+                rec['replay_status'] = rp['status']
+                if rp['status'] == 'confirmed':
+                    kf = match_known(known, prop, ob['id'], rp)
+                    path = write_replay(prop, ob, rp, u)
+                    if kf is not None:
+                        known_lines.append('KNOWN-FINDING: property=%s %s' % (prop, kf.get('what', ob['id'])))
+                        rec['known_finding'] = True
+                    else:
+                        violations.append((ob['id'], path, True))
+                else:
+                    undecided.append(ob['id'])
             elif ob['result'] == 'unknown':
                 undecided.append(ob['id'])
     n_ob = len(obligations)
